@@ -163,3 +163,33 @@ func checkSeries(old, neu []byte) {
 		rt.Assert(rt.BytesEqual(whole, neu), "resuming from a saved old-offset gives the same remainder")
 	}
 }
+
+// H_bsdiff_real: contents long enough for bsdiff's own match criterion (a match must beat the
+// previous alignment by more than 8 bytes) with a 64-byte scan block: concrete distinct old bytes
+// (suffix sorting), new derived by insertion / deletion / block move / duplication / two edits, with
+// one fresh symbolic byte. Params: nold, shape, pos, parts.
+func H_bsdiff_real() {
+	nold, pos := rt.Param("nold"), rt.Param("pos")
+	old := make([]byte, nold)
+	for i := range old {
+		old[i] = byte(i*7 + 3)
+	}
+	s := rt.Byte("fresh")
+	var neu []byte
+	switch rt.Param("shape") {
+	case 0: // two bytes inserted at pos
+		neu = append(append(append([]byte{}, old[:pos]...), s, 77), old[pos:]...)
+	case 1: // three bytes deleted at pos, one appended
+		neu = append(append(append([]byte{}, old[:pos]...), old[pos+3:]...), s)
+	case 2: // the first pos bytes moved to the end
+		neu = append(append(append([]byte{}, old[pos:]...), s), old[:pos]...)
+	case 3: // the range [pos, pos+10) duplicated at the end
+		neu = append(append(append([]byte{}, old...), s), old[pos:pos+10]...)
+	case 4: // two edits far apart
+		neu = append([]byte{}, old...)
+		neu[pos] = s
+		neu[nold-2] ^= 0x55
+	}
+	checkSeries(old, neu)
+	rt.Reach("end")
+}
